@@ -121,7 +121,7 @@ VOID CommandDispatcher( VOID )
                         }
                     }
                 }
-            } while ( Parser.Length > 12 );
+            } while ( Parser.Length >= 12 );
 
             MemSet( DataBuffer, 0, DataBufferSize );
             Instance->Win32.LocalFree( DataBuffer );
